@@ -1,5 +1,5 @@
 #![allow(dead_code)]
 use parity_scale_codec::{Compact, Decode, Encode};
-#[derive(Encode, Decode)]
-pub struct T(#[codec(encoded_as = "Compact<u64>")] pub u64);
+#[derive(parity_scale_codec::CompactAs)]
+pub struct T(u32, #[codec(skip)] u32);
 fn main() {}
